@@ -112,7 +112,7 @@ def doForced (l : Kit.Line) : String :=
     let pb : List Instr :=
       if mode == "nest" then encryptProg 0 (bodyOf 0 b) ++ decryptOf sur ret 1 b
       else if mode == "nestdec" then decryptOf sur ret 0 b
-      else [.get, .write 0 0 (List.replicate 64 170), .put 0]
+      else [.get, .write 0 0 (List.replicate (max 64 (a.length + b.length)) 170), .put 0]
     let s0 := init fun t => if t = 0 then pa else if t = 1 then pb else []
     let r1 := runToYield s0 true 0 (pa.length + 1)
     let r2 := runToEnd r1.1 r1.2.1 1 (pb.length + 1)
